@@ -194,6 +194,59 @@ impl Prop for C02 {
             .boxed();
         vec![Part { name: "random".into(), strategy: s, cases: tier.pick(250_000, 5_000_000) }]
     }
+    fn extra(&self, ctx: &mut Ctx) -> Vec<(String, Verdict, Option<AstCase>)> {
+        // oracle self-test (no engine involved): R2's first match must be a member of R1's match relation and start at
+        // the leftmost position where R1 has any match; where R2 finds nothing, R1 must find nothing. A disagreement
+        // is a bug of the harness, not of regexml: exit 2.
+        use proptest::strategy::{Strategy, ValueTree};
+        use proptest::test_runner::{Config, RngSeed, TestRunner};
+        let mut runner = TestRunner::new(Config { rng_seed: RngSeed::Fixed(20260), failure_persistence: None, ..Config::default() });
+        let strat = (gen::node_strategy(&span_cfg()), gen::flags_strategy("ims"), gen::raw_inputs(4, 8));
+        let mut agreed = 0u64;
+        for _ in 0..ctx.tier.pick(4000, 40000) {
+            let (node, flags, raw) = match strat.new_tree(&mut runner) {
+                Ok(t) => t.current(),
+                Err(_) => continue,
+            };
+            let case = AstCase { node, flags, inputs: Inputs::Raw(raw) };
+            let m = case.materialize(Dialect::XPath, EXTRA);
+            if oracle_lang::backref_into_loop(&m.node) {
+                continue;
+            }
+            for input in &m.inputs {
+                let s = chars(input);
+                let bt = Bt::new(&m.node, &s, m.flags);
+                let first = bt.find(&m.node, 0);
+                if bt.overflowed() {
+                    continue;
+                }
+                let l = Lang::new(&m.node, &s, m.flags);
+                let mut leftmost: Option<(usize, Vec<usize>)> = None;
+                for p in 0..=s.len() {
+                    let e = l.ends_from(&m.node, p);
+                    if !e.is_empty() {
+                        leftmost = Some((p, e));
+                        break;
+                    }
+                }
+                if l.overflowed() {
+                    continue;
+                }
+                let ok = match (&first, &leftmost) {
+                    (None, None) => true,
+                    (Some(mt), Some((p, ends))) => mt.start == *p && ends.contains(&mt.end),
+                    _ => false,
+                };
+                if !ok {
+                    eprintln!("harness error: oracle self-test: R1 and R2 disagree on pattern {:?} flags {:?} input {:?}: R2 {:?}, R1 leftmost {:?}", m.pattern, case.flags, input, first.map(|x| (x.start, x.end)), leftmost);
+                    std::process::exit(2);
+                }
+                agreed += 1;
+            }
+        }
+        ctx.obs.label(&format!("oracle-selftest:R1-R2-agreements={agreed}"));
+        vec![]
+    }
     fn check(&self, case: &AstCase, ctx: &mut Ctx) -> Verdict {
         check_spans("C02", case, ctx)
     }
